@@ -550,11 +550,11 @@ func appendString(dst, src []byte, encode bool) []byte {
 	// TODO: Encode only if length is lower with the string encoded
 
 	n := uint64(len(b))
-	nn := len(dst) - 1 // peek last byte
-	if nn >= 0 && dst[nn] != 0 {
-		dst = append(dst, 0)
-		nn++
-	}
+	// The length always starts an octet of its own. Reusing a trailing zero
+	// octet merged it into whatever came before: an empty name, a name ending
+	// in a NUL, or one whose Huffman form ends in a zero octet ("00000000").
+	dst = append(dst, 0)
+	nn := len(dst) - 1
 
 	dst = appendInt(dst, 7, n)
 	dst = append(dst, b...)
@@ -614,7 +614,7 @@ func (hp *HPACK) AppendHeader(dst []byte, hf *HeaderField, store bool) []byte {
 				}
 			}
 		} else if !store || hp.DisableDynamicTable { // with or without indexing
-			dst = append(dst, 0, 0)
+			dst = append(dst, 0)
 		} else {
 			dst = append(dst, literalByte)
 			hp.addDynamic(hf)
